@@ -11,7 +11,7 @@ import (
 // switched off - nothing else disappears, nothing new appears. The program produces diagnostics of the
 // cross-file types (2 undefined, 3 defined later, 10 call argument count) as well as first-pass types
 // (4 unused local, 5 duplicate key, 20 self assignment).
-const c17dProg = "function foo(a) return a end\nfoo(1, 2, 3)\nprint(nodef)\nprint(later)\nlater = 1\nlocal unused = 1\nlocal t = { k = 1, k = 2 }\nxx = 1\nxx = xx\n"
+const c17dProg = "function foo(a) return a end\nfoo(1, 2, 3)\nprint(nodef)\nprint(later)\nlater = 1\nlocal unused = 1\nlocal t = { k = 1, k = 2 }\nxx = 1\nxx = xx\ndo\n goto nolabel\nend\n"
 
 var c17dTypes = []int{2, 3, 4, 5, 10, 11, 12, 20}
 
